@@ -124,6 +124,16 @@ func NewPeerPool(cfg PeerPoolConfig) (*PeerPool, error) {
 	// Sort peers for consistent hashing
 	sort.Strings(allPeers)
 
+	// A peer that is listed more than once is one ring member (AddPeer and
+	// RemovePeer already assume that).
+	uniq := make([]string, 0, len(allPeers))
+	for i, p := range allPeers {
+		if i == 0 || p != allPeers[i-1] {
+			uniq = append(uniq, p)
+		}
+	}
+	allPeers = uniq
+
 	logger := cfg.Logger
 	if logger == nil {
 		logger = zap.NewNop()
